@@ -299,9 +299,10 @@ CursorNext(st, pos, n, dir) ==
             ELSE [st |-> "within", pos |-> p, ret |-> p]
 
 \* reported keys are unique on the result, reported fixed values hold in every row
-KeysOK(keys, base) ==
-    \A i \in 1..Len(keys) : \A r1, r2 \in base :
-        SameOn(r1, r2, Range(keys[i])) => r1 = r2
+KeysOK(keys, base, cols) ==
+    \A i \in 1..Len(keys) :
+        /\ Range(keys[i]) \subseteq cols
+        /\ \A r1, r2 \in base : SameOn(r1, r2, Range(keys[i])) => r1 = r2
 \* fixed: sequence of [c, vs]
 FixedOK(fixed, base) ==
     \A i \in 1..Len(fixed) : \A r \in base :
